@@ -161,6 +161,8 @@ def nud__quantified_expressions(self: XPathToken) -> XPathToken:
     while True:
         self.parser.next_token.expected('$')
         variable = self.parser.expression(5)
+        if variable.symbol != '$':
+            raise variable.wrong_syntax()  # "$" VarName required
         self.append(variable)
         self.parser.advance('in')
         expr = self.parser.expression(5)
@@ -216,6 +218,8 @@ def nud__for_expression(self: XPathToken) -> XPathToken:
     while True:
         self.parser.next_token.expected('$')
         variable = self.parser.expression(5)
+        if variable.symbol != '$':
+            raise variable.wrong_syntax()  # "$" VarName required
         self.append(variable)
         self.parser.advance('in')
         expr = self.parser.expression(5)
